@@ -178,6 +178,55 @@ def null_fill_witnesses():
     return out
 
 
+def shared_surface_witnesses():
+    '''Minimal decks of the second seeded regression: universe cells repeat,
+    with the same sense, surfaces that bound the cell they fill; nothing is
+    moved.  (a) a box of six planes filled with a universe whose cells reuse
+    the planes; (b) a sphere filled with a universe whose cell is filled again,
+    the inner cells repeating the sphere.'''
+    def cell(cid, mat, expr, u=0, fill=None, imp=1):
+        return {'id': cid, 'mat': mat, 'rho': '-1.0' if mat else None,
+                'expr': expr, 'imp': {'n': imp}, 'u': u, 'lat': None,
+                'fill': fill, 'trcl': None, 'like': None}
+
+    def surf(sid, mn, *params):
+        return {'id': sid, 'mn': mn, 'params': [float(v) for v in params],
+                'tr': None, 'bc': ''}
+
+    def lits(*ns):
+        return deckmod.leaf_expr(list(ns))
+    mats = {m: ['1001', '1.0'] for m in (1, 2, 3, 4)}
+    box = {'title': 'c05 filler reuses the planes of its box', 'data': [],
+           'transforms': {}, 'materials': mats,
+           'surfaces': [surf(1, 'px', -2.1), surf(2, 'px', 2.4),
+                        surf(3, 'py', -1.9), surf(4, 'py', 2.2),
+                        surf(5, 'pz', -2.3), surf(6, 'pz', 1.8),
+                        surf(7, 'px', 0.35), surf(9, 'so', 9)],
+           'cells': [cell(1, 0, lits(1, -2, 3, -4, 5, -6), fill={'u': 1, 'tr': None}),
+                     cell(2, 3, ('*', ('s', -9), (':', ('s', -1), ('s', 2), ('s', -3),
+                                                  ('s', 4), ('s', -5), ('s', 6)))),
+                     cell(3, 0, ('s', 9), imp=0),
+                     cell(10, 1, lits(1, -7, 3, -4)),
+                     cell(11, 2, lits(7, -2, -6, 5))]}
+    box['cells'][3]['u'] = box['cells'][4]['u'] = 1
+    nested = {'title': 'c05 inner filler repeats the outer sphere', 'data': [],
+              'transforms': {}, 'materials': mats,
+              'surfaces': [surf(1, 'so', 4), surf(2, 'py', 0.45),
+                           surf(3, 'pz', -0.55), surf(9, 'so', 9)],
+              'cells': [cell(1, 0, ('s', -1), fill={'u': 1, 'tr': None}),
+                        cell(2, 3, lits(1, -9)),
+                        cell(3, 0, ('s', 9), imp=0),
+                        cell(10, 0, lits(-2, -1), u=1, fill={'u': 2, 'tr': None}),
+                        cell(11, 2, lits(2), u=1),
+                        cell(20, 1, lits(-3, -1), u=2),
+                        cell(21, 4, lits(-1, 3), u=2)]}
+    out = []
+    for name, deck in (('box planes reused', box), ('outer sphere repeated', nested)):
+        for options in c05_sweep.OPTION_SETS:
+            out.append((name, deck, deckmod.render(deck), list(options)))
+    return out
+
+
 def text_failures(deck, text, options):
     import impl
     conv = impl.convert(text, list(options))
@@ -298,12 +347,22 @@ def sweep(res, rng, n_decks, n_points, tag):
     failing decks.'''
     bad_decks = 0
     for i in range(n_decks):
-        deck = c05_sweep.gen_hierarchy(rng)
+        if i % 9 == 8:
+            deck = c05_sweep.gen_like_but_fill(rng)
+            res.count(f'{tag}:like-n-but-fill-m')
+        else:
+            deck = c05_sweep.gen_hierarchy(rng)
+        # i % 9 and i % 4 are independent: every kind meets every option set
         options = c05_sweep.OPTION_SETS[i % len(c05_sweep.OPTION_SETS)]
         conv, checked, deep, failures = c05_sweep.run_deck(
             deck, rng, options, n_points)
         text = deckmod.render(deck)
         n_univ = len({abs(c['u']) for c in deck['cells']})
+        if deck.get('c05_shared'):
+            res.count(f'{tag}:decks-with-filler-repeating-container-surfaces')
+            if any(d == 2 for _a, _b, d in deck['c05_shared']):
+                res.count(f'{tag}:decks-with-inner-filler-repeating-outer-'
+                          'container-surfaces')
         for _cid, lvl, kind in deck.get('c05_both', []):
             res.count(f'{tag}:trcl+fill-tr:{kind}:'
                       + ('level0' if lvl == 0 else 'nested'))
@@ -370,6 +429,10 @@ def run(res, tier, seed, proofs_ok):
         'level 0 and nested (identity spelled (0 0 0), starred (0 0 0), 12 '
         'entries, starred 12 entries, TR number of an identity card; or an '
         'ordinary one); '
+        'universe cells that repeat, with the same sense, surfaces bounding '
+        'the cell they fill (also through a second level), FILL and cells '
+        'unmoved; LIKE n BUT FILL=m TRCL=... copies of a cell whose own FILL '
+        'has a transformation (1 deck in 9); '
         'patently empty cells in filling universes; filler cells declared '
         'with U=-n; '
         'IMP=0 level-0 cells), 150+ points per deck; non-trivial = a point '
@@ -410,6 +473,21 @@ def run(res, tier, seed, proofs_ok):
                            'abstract': deck, 'point': fails[0]['point']},
                  'expected': 'mcnpref.Reference.locate (a FILL without '
                              'transformation follows the TRCL)',
+                 'observed': [f['why'] for f in fails[:5]]},
+                found_input=True)
+
+    for name, deck, text, options in shared_surface_witnesses():
+        fails = text_failures(deck, text, options)
+        res.count('corpus:filler-repeats-container-surfaces')
+        res.seen((text, tuple(options)), nontrivial=True)
+        if fails:
+            res.violation(
+                'impl-violation',
+                f'{name} ({" ".join(options) or "default options"}): '
+                f'{len(fails)} sample points misplaced: {fails[0]["why"]}',
+                {'input': {'deck': text, 'options': options,
+                           'abstract': deck, 'point': fails[0]['point']},
+                 'expected': 'mcnpref.Reference.locate',
                  'observed': [f['why'] for f in fails[:5]]},
                 found_input=True)
 
